@@ -74,17 +74,17 @@ type gBlock struct {
 }
 
 type gEpoch struct {
-	Epoch   uint64
-	Blocks  []*gBlock
-	Car     string
-	CarData []byte
-	Root    cid.Cid
-	Keys    []solana.PrivateKey
-	Objs    []*gObj
-	HdrLen  uint64
-	bySlot  map[uint64]*gBlock
-	allSigs []solana.Signature
-	twins   int
+	Epoch    uint64
+	Blocks   []*gBlock
+	Car      string
+	CarData  []byte
+	Root     cid.Cid
+	Keys     []solana.PrivateKey
+	Objs     []*gObj
+	HdrLen   uint64
+	bySlot   map[uint64]*gBlock
+	allSigs  []solana.Signature
+	twins    int
 	accepted int
 }
 
@@ -100,6 +100,7 @@ type genOpts struct {
 	KeySeedBase byte // epochs with the same base share addresses
 	Rewards     bool
 	FirstSlotAt uint64 // offset of the first block inside the epoch
+	TimeBase    uint64 // block time = TimeBase + slot (0: 1600000000)
 	// ExactSecLens: stand-alone DataFrame objects whose CAR section payload (cid+data) has exactly these lengths
 	// (varint-width boundaries 127/128, 16383/16384, …) are written after the first blocks
 	ExactSecLens []int
@@ -315,7 +316,11 @@ func genEpoch(rng *zz.RNG, dir string, o genOpts) *gEpoch {
 		for rng.Intn(100) < o.SkipPct && !(b == 0 && o.FirstBlockAtStart) {
 			slot++
 		}
-		gb := &gBlock{Slot: slot, Parent: parent, Time: 1600000000 + slot, Height: 1000 + uint64(b)}
+		timeBase := uint64(1600000000)
+		if o.TimeBase != 0 {
+			timeBase = o.TimeBase
+		}
+		gb := &gBlock{Slot: slot, Parent: parent, Time: timeBase + slot, Height: 1000 + uint64(b)}
 		if b == 0 {
 			if slot > 0 {
 				gb.Parent = o.Epoch*432000 - 1 // parent in the previous epoch
